@@ -3,8 +3,10 @@
 (* Trace validation (code -> spec) of ImageD11.indexing.indexer runs, C08. *)
 (* Each line of TRACE_FILE is one recorded run on real g-vectors, through  *)
 (* indexer.score_all_pairs (also with n / rmulmax / rings_to_use and       *)
-(* repeated with other minpks / hkl_tol), indexing.index or                *)
-(* indexing.do_index:                                                      *)
+(* repeated with other minpks / hkl_tol), indexing.index,                  *)
+(* indexing.do_index, or a session on one indexer (readgvfile,             *)
+(* assigntorings / find / scorethem by hand, pair loops, and between them  *)
+(* saveindexing / fight_over_peaks / saveubis):                            *)
 (*   id, NP, unum/uden (uniqueness threshold), maxgrains,                  *)
 (*   mode   "closest" (cosine_tol > 0) or "all" (cosine_tol < 0)           *)
 (*   passes[k] = [minpks]  the minimum REQUESTED for pass k (from the      *)
@@ -27,6 +29,14 @@
 (*            indexed by getind and how many of them were unassigned;       *)
 (*            ind = those peaks                                             *)
 (*     [t |-> "end", left]                   scorethem returned             *)
+(*     [t |-> "fight", fit, amb, ga, gas]    fight_over_peaks returned       *)
+(*            (saveindexing calls it first): fit[p] = the accepted grains   *)
+(*            whose lattice holds peak p within the hkl_tol in force, as    *)
+(*            <<position in the accepted list, rank of its error on p>>     *)
+(*            by the harness's OWN hkl errors on the reported matrices;     *)
+(*            amb = peaks where two of those errors, or an error and the    *)
+(*            tolerance, are too close to order in floating point;          *)
+(*            ga, gas = indexer.ga / indexer.gas as observed afterwards     *)
 (*   gaF[p] final grain assignment, nubisF final number of grains,         *)
 (*   scoresF final .scores                                                 *)
 (* The actions are those of Indexer.tla with the abstract functions bound  *)
@@ -38,7 +48,11 @@
 (* tries only permitted ring pairs, each once, all of them unless n cuts    *)
 (* it short and then not more than n + 1, that at most maxgrains are        *)
 (* accepted per scorethem call, that the score stored for a grain is the    *)
-(* best one taken, and what ga / scores become.                             *)
+(* best one taken, what ga / scores become, and that fight_over_peaks      *)
+(* leaves every peak with the accepted grain that fits it best (the        *)
+(* earlier one on a tie; numbered from 0 as the code does), with none iff  *)
+(* no accepted grain indexes it, and gas = the peaks per grain             *)
+(* (Indexer.tla Save / SaveOK, ScoreAssign.tla BestGrain).                 *)
 (* One verdict per trace, naming the failing clause.                       *)
 (***************************************************************************)
 EXTENDS Integers, Sequences, FiniteSets, TLC, Json, IOUtils
@@ -136,6 +150,31 @@ Pop == /\ t <= Len(Trace) /\ e < Len(Rec.ev) /\ why = "ok" /\ Ev.t = "pop"
           ELSE UNCHANGED <<ga, nub, ng, scores>>
        /\ inscore' = TRUE /\ UNCHANGED <<pass, call, tried>> /\ Consume
 
+\* ---- fight_over_peaks (saveindexing) ------------------------------------------------------------
+\* the competing-owner rule on the harness's ranked errors: smallest rank, the earlier grain on a tie; labels from 0
+Win(s) == IF Len(s) = 0 THEN -1
+          ELSE LET i == CHOOSE i \in 1..Len(s) : \A m \in 1..Len(s) :
+                              s[i][2] < s[m][2] \/ (s[i][2] = s[m][2] /\ s[i][1] <= s[m][1])
+               IN s[i][1] - 1
+AmbSet(v) == {v.amb[k] : k \in 1..Len(v.amb)}
+FightWhy(r, v) ==
+  IF Len(v.ga) # r.NP \/ Len(v.fit) # r.NP THEN "fight_over_peaks left a grain assignment of the wrong length"
+  ELSE IF \E p \in 1..r.NP : \E m \in 1..Len(v.fit[p]) : v.fit[p][m][1] \notin 1..nub
+       THEN "fight_over_peaks was judged with a grain that was never accepted"
+  ELSE IF \E p \in 1..r.NP : p \notin AmbSet(v) /\ v.ga[p] # Win(v.fit[p])
+       THEN IF \E p \in 1..r.NP : p \notin AmbSet(v) /\ v.ga[p] = -1 /\ Win(v.fit[p]) # -1
+            THEN "fight_over_peaks left a peak without a grain although an accepted grain indexes it"
+            ELSE "fight_over_peaks did not give a peak to the accepted grain that fits it best"
+  ELSE IF \E p \in AmbSet(v) : v.ga[p] # -1 /\ v.ga[p] \notin {v.fit[p][m][1] - 1 : m \in 1..Len(v.fit[p])}
+       THEN "fight_over_peaks gave a peak to a grain that does not index it"
+  ELSE IF Len(v.gas) # nub \/ \E k \in 1..nub : v.gas[k] # Cardinality({p \in 1..r.NP : v.ga[p] = k - 1})
+       THEN "gas is not the number of peaks each grain holds after fight_over_peaks"
+  ELSE "ok"
+Fight == /\ t <= Len(Trace) /\ e < Len(Rec.ev) /\ why = "ok" /\ Ev.t = "fight"
+         /\ why' = FightWhy(Rec, Ev)
+         /\ ga' = IF Len(Ev.ga) = Rec.NP THEN Ev.ga ELSE ga
+         /\ UNCHANGED <<nub, hits, ng, inscore, pass, scores, call, tried>> /\ Consume
+
 \* ---- end of scorethem -------------------------------------------------------------------------
 End == /\ t <= Len(Trace) /\ e < Len(Rec.ev) /\ why = "ok" /\ Ev.t = "end"
        /\ why' = IF Len(hits) > 0 /\ ng < Rec.maxgrains THEN "scorethem returned with hits left and fewer than max_grains grains"
@@ -148,7 +187,7 @@ FinalWhy(r) == IF CallDoneWhy # "ok" THEN CallDoneWhy
                ELSE IF nub # r.nubisF THEN "final number of grains differs from the specification's"
                ELSE IF scores # r.scoresF THEN "final scores differ from the specification's"
                ELSE IF Len(scores) # nub THEN "scores and ubis have different lengths"
-               ELSE IF \E p \in 1..r.NP : ~(ga[p] = -1 \/ ga[p] \in 1..nub) THEN "a peak is assigned to a grain that was never accepted"
+               ELSE IF \E p \in 1..r.NP : ga[p] \notin -1..nub THEN "a peak is assigned to a grain that was never accepted"
                ELSE "ok"
 Finish == /\ t <= Len(Trace) /\ (e = Len(Rec.ev) \/ why # "ok")
           /\ LET w == IF why # "ok" THEN why ELSE FinalWhy(Rec)
@@ -158,6 +197,6 @@ Finish == /\ t <= Len(Trace) /\ (e = Len(Rec.ev) \/ why # "ok")
              ELSE /\ ga' = <<>> /\ nub' = 0 /\ hits' = <<>> /\ ng' = 0 /\ inscore' = FALSE
                   /\ pass' = 1 /\ scores' = <<>> /\ call' = NoCall /\ tried' = {}
 
-Next == Find \/ Pop \/ End \/ PassEv \/ SapEv \/ Finish
+Next == Find \/ Pop \/ End \/ Fight \/ PassEv \/ SapEv \/ Finish
 Spec == Init /\ [][Next]_vars
 =============================================================================
